@@ -120,6 +120,26 @@ def check_grid(p, z, e, n, h, ell, prj, origin):
             p.measure('mirror_dev_deg', max(dlat, dlon))
             p.check(dlat <= 1.5 * MIRROR_REPORT_DEG and dlon <= 1.5 * MIRROR_REPORT_DEG, 'hemisphere-mirror',
                     'hemisphere_mirror', inp, [rm[0], rm[1]], [-lat, lon], call + ' vs ' + g2g_call(z, e, nm, hm, ell, prj))
+    # (e) the object interface to the same conversion (CoordTM.geo, one of the property's observation points): the same latitude
+    #     and longitude for the ellipsoid and projection requested, in whichever notation the result is asked for
+    if p.rng.random() < 0.15:
+        import geodepy.coord as CO
+        import geodepy.angles as A
+        nname, notation = p.rng.choice([('default', None), ('float', float), ('DEC', A.DECAngle), ('HP', A.HPAngle), ('GON', A.GONAngle),
+                                        ('DMS', A.DMSAngle), ('DDM', A.DDMAngle)])
+        ocall = (f'CoordTM({z}, {e!r}, {n!r}, hemi_north={h == "north"}, projection={src_prj(prj)}).geo({src_ell(ell)}'
+                 + ('' if notation is None else f', notation={nname}') + ')')
+
+        def via_object():
+            t = CO.CoordTM(z, e, n, hemi_north=(h == 'north'), projection=prj)
+            g = t.geo(ell) if notation is None else t.geo(ell, notation)
+            return [float(v) if isinstance(v, float) and not hasattr(v, 'dec') else float(v.dec()) for v in (g.lat, g.lon)]
+        ok, ro = p.guarded('coordtm-geo:raises', 'coord_objects', dict(inp, notation=nname), via_object, ocall)
+        p.case('coord_objects', dict(inp, notation=nname))
+        if ok:
+            # the notations hold seconds to 1e-9 (HP) or are float arithmetic on the degrees: below 1e-12 deg
+            p.check(abs(ro[0] - lat) <= 1e-12 and abs(ro[1] - lon) <= 1e-12, 'coordtm-geo:differs-from-grid2geo', 'coord_objects',
+                    dict(inp, notation=nname), ro, [lat, lon], ocall)
     # (d) stand-alone converter (southern hemisphere, UTM, GRS80)
     if prj is K.utm and ell is K.grs80 and h == 'south':
         scall = f'Standalone/mga2gda.py: grid2geo({z}, {e!r}, {n!r})  vs  {call}'
